@@ -1,3 +1,16 @@
+/// sample size by tier: quick, thorough, or "deep" (their geometric mean) - the size `check` escalates
+/// to when a translator item falls back to the correspondence (DESIGN 14.4)
+#[macro_export]
+macro_rules! sz {
+    ($tier:expr, $quick:expr, $thorough:expr) => {
+        match $tier {
+            "thorough" => $thorough,
+            "deep" => ((($quick as f64) * ($thorough as f64)).sqrt()) as _,
+            _ => $quick,
+        }
+    };
+}
+
 mod f_astro;
 mod f_block;
 mod f_bounded;
